@@ -921,3 +921,45 @@ CASES["C12"] += [
 CASES["C08"] += [
     ("reintroduce F-47 (alu / phs loop count = first temporal bound)", "mutant", "snaxc/accelerators/snax_alu.py", "@revert:53cc874~1", "", ["C08.loop-count"]),
 ]
+
+# ----- round 7: defects noted by the seeding agents as pre-existing, repaired in /repo
+CASES["C12"] += [
+    ("reintroduce F-48 (constant / global re-laid-out although it has users that are not casts)", "mutant", "snaxc/transforms/realize_memref_casts.py", "@revert:9e12e08~1", "", ["C12.const-guards"]),
+    ("ApplyLayoutCastSubviewGlobal: the global's new layout drops the target offset", "mutant", "snaxc/transforms/realize_memref_casts.py",
+     "TiledStridedLayoutAttr(TiledStridedLayout(new_tstrides, layout.data.offset))", "TiledStridedLayoutAttr(TiledStridedLayout(new_tstrides))", ["C12.const-guards"]),
+]
+CASES["C07"] += [
+    ("reintroduce F-50 (pre-threaded loop keeps its stale yield operand)", "mutant", "snaxc/transforms/convert_linalg_to_accfg.py", "@revert:64d8eca~1", "", ["C07.weave-loop-yield"]),
+]
+CASES["C14"] += [
+    ("reintroduce F-51 (dispatch_to_compute declines on any(not match))", "mutant", "snaxc/util/dispatching_rules.py", "@revert:6d73a87~1", "", ["C14.disjoint"]),
+    ("move loop drains the pending list from the back", "mutant", "snaxc/transforms/dispatch_regions.py",
+     "                    for dispatch_op in ops_to_dispatch:\n", "                    while ops_to_dispatch:\n                        dispatch_op = ops_to_dispatch.pop()\n", ["C14.wrap"]),
+    ("twin: move loop drains the pending list from the front", "twin", "snaxc/transforms/dispatch_regions.py",
+     "                    for dispatch_op in ops_to_dispatch:\n", "                    while ops_to_dispatch:\n                        dispatch_op = ops_to_dispatch.pop(0)\n", []),
+    ("a SupportedKernel built from a one-shot iterator", "mutant", "snaxc/accelerators/streamers/extensions/rescale_extension.py",
+     "SupportedKernel(kernel.RescaleOp, [i8, i32])", "SupportedKernel(kernel.RescaleOp, reversed([i32, i8]))", ["C14.kernel-tables"]),
+]
+CASES["C17"] += [
+    ("trip count through a float quotient", "mutant", "snaxc/transforms/pipeline/pipeline_canonicalize_for.py", "-(-ub // step)", "__import__('math').ceil(ub / step)", ["C17.trip-count"]),
+]
+CASES["C19"] += [
+    ("compose returns self when the other matrix is the identity (translation ignored)", "mutant", "snaxc/ir/dart/affine_transform.py",
+     "        new_A = self.A @ other.A\n", "        if (other.A == np.eye(other.A.shape[0])).all() and other.A.shape[0] == other.A.shape[1]:\n            return self\n        new_A = self.A @ other.A\n", ["C19.compose"]),
+    ("twin: compose returns self when the other transform is the identity function (matrix and translation tested)", "twin", "snaxc/ir/dart/affine_transform.py",
+     "        new_A = self.A @ other.A\n", "        if other.A.shape[0] == other.A.shape[1] and (other.A == np.eye(other.A.shape[0])).all() and not other.b.any():\n            return self\n        new_A = self.A @ other.A\n", []),
+]
+CASES["C08"] += [
+    ("verifier measures the canonical stride pattern", "mutant", "snaxc/dialects/snax_stream.py", "if len(stride_pattern.temporal_strides) > streamer.temporal_dim:",
+     "if len(stride_pattern.canonicalize().temporal_strides) > streamer.temporal_dim:", ["C08.dims-verified"]),
+]
+CASES["C18"] += [
+    ("blocks compared as multisets of op types", "mutant", "snaxc/transforms/convert_linalg_to_kernel.py",
+     "    for op_a, op_b in zip(block_a.ops, block_b.ops, strict=True):\n        if type(op_a) is not type(op_b):\n            return False\n\n    return True\n",
+     "    return sorted(type(o).__name__ for o in block_a.ops) == sorted(type(o).__name__ for o in block_b.ops)\n", ["C18.all-ops"]),
+]
+CASES["C06"] += [
+    ("twin: loop-level overlap refused while the loop's state result has users (F-49 repaired conservatively)", "twin", "snaxc/transforms/accfg_config_overlap.py",
+     "        # also, if there is another launch between us and the loop start, abort\n",
+     "        if for_op.results[iter_arg_idx].uses.get_length() != 0:\n            return\n        # also, if there is another launch between us and the loop start, abort\n", []),
+]
